@@ -1,4 +1,5 @@
 import OdxVerif.Proofs.CompKeyLeaves
+import OdxVerif.Proofs.CompKeyFreeDec
 /-! LENGTH-KEY / PARAM-LENGTH-INFO-TYPE (task W13): the parameters of a structure as a list of *items* — components of
     the compositional framework (`Comp.Ok`, which must not touch the key dictionaries: `Comp.KeyFree`), LENGTH-KEY parameters
     and PARAM-LENGTH-INFO-TYPE users — and the refinement of the model's two encoding passes and of its decoder:
@@ -47,7 +48,23 @@ theorem Framing.comp {K J : EncState → EncState} (hK : Framing K) (hJ : Framin
 structure Comp.KeyFree (g : Comp) : Prop where
   enc_keys : ∀ (fuel : Nat), g.need ≤ fuel → ∀ (s s' : EncState), encodeParam fuel g.param g.sup s true = .ok ((), s') →
     s'.lengthKeys = s.lengthKeys ∧ s'.keyPos = s.keyPos
-  dec_keys : ∀ (d : DecState), (g.pair.dec d).2.lengthKeys = d.lengthKeys
+  dec_keys : ∀ (d : DecState), d.cursorBit = 0 → g.pair.fits d → g.decPre d → (g.pair.dec d).2.lengthKeys = d.lengthKeys
+
+/-- **the syntactic criterion**: a component whose parameter contains no LENGTH-KEY parameter and no PARAM-LENGTH-INFO-TYPE
+    diag-coded type (`Param.noKeys`, decidable by evaluation) leaves the key dictionaries alone (`encKeeps` / `decKeeps`) -/
+theorem Comp.keyFree_of_noKeys (g : Comp) (hok : g.Ok) (h : g.param.noKeys = true) : g.KeyFree where
+  enc_keys := by
+    intro fuel _ s s' hrun
+    have := ((encKeeps fuel).param s.maps g.param g.sup h).run s true rfl
+    rw [hrun] at this
+    have h2 : (s'.lengthKeys, s'.keyPos) = (s.lengthKeys, s.keyPos) := this
+    exact ⟨(Prod.mk.inj h2).1, (Prod.mk.inj h2).2⟩
+  dec_keys := by
+    intro d hcb hfit hpre
+    have hrun := hok.decode_eq g.need (Nat.le_refl _) d hcb hfit hpre
+    have := ((decKeeps g.need).param d.keys g.param h).run d true rfl
+    rw [hrun] at this
+    exact this
 
 theorem Comp.ofObjValue_keyFree (o : Obj) (v : IVal) (ho : o.ok) (hr : o.inRange v) : (Comp.ofObjValue o v).KeyFree where
   enc_keys := by
@@ -58,7 +75,7 @@ theorem Comp.ofObjValue_keyFree (o : Obj) (v : IVal) (ho : o.ok) (hr : o.inRange
     simp only [Except.ok.injEq, Prod.mk.injEq, true_and] at h'
     subst h'
     exact ⟨rfl, rfl⟩
-  dec_keys := fun _ => rfl
+  dec_keys := fun _ _ _ _ => rfl
 
 theorem Comp.ofObjConst_keyFree (o : Obj) (v : IVal) (b : Bool) (ho : o.ok) (hr : o.inRange v) :
     (Comp.ofObjConst o v b).KeyFree where
@@ -70,7 +87,7 @@ theorem Comp.ofObjConst_keyFree (o : Obj) (v : IVal) (b : Bool) (ho : o.ok) (hr 
     simp only [Except.ok.injEq, Prod.mk.injEq, true_and] at h'
     subst h'
     exact ⟨rfl, rfl⟩
-  dec_keys := fun _ => rfl
+  dec_keys := fun _ _ _ _ => rfl
 
 /-! ### items -/
 
